@@ -365,7 +365,7 @@ func toks(reply string) []string {
 }
 
 func runC05(r *hx.Result, cfg hx.Config) {
-	r.Rule = "black-box: static fences (SETCHAN channels, SETHOOK webhooks to a local endpoint, live NEARBY/WITHIN/INTERSECTS ... FENCE connections) on circular and rectangular areas: one channel per expressible DETECT value (no clause + 31 non-empty subsets), filter variants (WHERE, MATCH, COMMANDS, NOFIELDS, COUNT) and 0 / 5 / 60 other hooks placed near, far and on another key. Every write (SET for II, OI, IO, OO, OO-crossing, first appearance; FSET on inside/outside objects; DEL, PDEL, expiry, DROP, EXPIRE) is evaluated for every fence: observed detect sequence vs (a) the documented rule computed in Go (direct oracle), (b) Model.Fence.fence_match gated by Model.HookReg.candidates fed with the same registry operations. non-trivial = distinct (fence kind, DETECT value, transition, other-hook population) that produced at least one message."
+	r.Rule = "black-box: static fences (SETCHAN channels, SETHOOK webhooks to a local endpoint, live NEARBY/WITHIN/INTERSECTS ... FENCE connections) on circular and rectangular areas: one channel per expressible DETECT value (no clause + 31 non-empty subsets), filter variants (WHERE, MATCH, COMMANDS, NOFIELDS, COUNT) and 0 / 5 / 60 other hooks placed near, far and on another key. Every write (SET for II, OI, IO, OO, OO-crossing, first appearance; FSET on inside/outside objects; DEL, PDEL, expiry, DROP, EXPIRE) is evaluated for every fence: observed detect sequence vs (a) the documented rule computed in Go (direct oracle), (b) Model.Fence.fence_match gated by Model.HookReg.candidates fed with the same registry operations. non-trivial = distinct (fence kind, DETECT value, transition, other-hook population) that produced at least one message. Sink equality under endpoint failures (sinks.go): one definition as channel, live connection and N+1 webhooks whose endpoint refuses exactly the k-th request once (k = 0..N, N = messages of the script; 500 / 503 / connection reset) plus webhooks with random multi-failure patterns, on a script of two-message batches (enter+inside, exit+outside, cross+outside): bodies finally accepted by every endpoint = channel messages = live messages (oracle), accepted bodies and attempt sequence = Model.FenceQueue (queue_hooks -> hook queue -> Hook.proc) under the same outcomes (correspondence)."
 	r.Assumptions = []string{
 		"spatial tests, the segment test and the area rectangles are evaluated with tidwall/geojson directly (oracle); points lie clearly inside or outside the main area",
 		"a spatial hit implies overlapping bounding rectangles; R-tree search returns the overlapping entries",
